@@ -118,13 +118,16 @@ if __name__ == '__main__':
         pats = CURATED.get(prop, [])
         seen = set()
         rows = []
+        cov = set()
+        for u in props[prop].get('units', {}):
+            cov |= unit_covered(u)
         for rel, pat in pats:
             src, fns = all_fns(rel)
             hit = [(sel, it) for sel, it in fns if re.fullmatch(pat, sel)]
             if not hit:
                 sys.exit('no function matches %s :: %s' % (rel, pat))
             for sel, it in hit:
-                if (rel, sel) in seen or len(src.find(sel)) != 1:
+                if (rel, sel) in seen or len(src.find(sel)) != 1 or (rel, it.start) in cov:
                     continue
                 seen.add((rel, sel))
                 rows.append({'file': rel, 'selector': sel, 'hash': token_hash(src, it)})
